@@ -192,9 +192,13 @@ class Rig(object):
             else:
                 self.child = pexpect.popen_spawn.PopenSpawn([a.decode() for a in _peer_argv(fifo)], **kw)
                 self.peer_pid = self.child.proc.pid
-                fd = self.child.proc.stdin.fileno()
+                # the harness writes its markers through a descriptor of its own: they must arrive whatever the object does
+                # to its end of the pipe (drop_raw() before a step that is to close the child's stdin)
+                fd = os.dup(self.child.proc.stdin.fileno())
+                self._raw_fd = fd
                 self._raw = lambda d: _write_all(fd, d)
                 self.send_fd = fd
+                self._fin.append(self.drop_raw)
             if self.drain.take_n(1, 20) != b'R':
                 raise Machinery('peer did not come up')
             self.out_fd = os.open('/proc/%d/fd/1' % self.peer_pid, os.O_WRONLY | (os.O_NOCTTY if transport == 'pty' else 0))
@@ -328,6 +332,11 @@ class Rig(object):
     def release(self):
         self.drain.gate.set()
 
+    def drop_raw(self):
+        fd, self._raw_fd = getattr(self, '_raw_fd', None), None
+        if fd is not None:
+            os.close(fd)
+
     # ---- environment ----
     def half_close(self):
         """the peer shuts its output side down and keeps reading its input"""
@@ -358,6 +367,9 @@ class Rig(object):
         """the caller closes the object"""
         c = self.child
         if self.transport == 'pty':
+            # (close() has to see a child that is gone: with delayafterclose = delayafterterminate = 0 it would not wait for it)
+            os.kill(c.pid, signal.SIGKILL)
+            os.waitid(os.P_PID, c.pid, os.WEXITED | os.WNOWAIT)
             c.close(force=True)
         elif self.transport == 'popen':
             raise Machinery('PopenSpawn has no close()')
